@@ -362,6 +362,7 @@ func vpH_C07_heartbeat_out() { vpOpt("unwind", 10); vpHeartbeatStep(3, vpParamsT
 // best and rotates outbound members in until Dout of them are kept.
 func vpHT_C07_heartbeat_cut5() {
 	vpOpt("unwind", 12)
+	vpOpt("idshuffle", 1) // ONE outcome of the two shuffles (identity); the order among equal scores is then the map walk's
 	vpHeartbeatStepX(5, vpParamsTuple(4, 2, 4, 1, 1), 0, true)
 }
 func vpH_C07_heartbeat_zero() { vpOpt("unwind", 10); vpHeartbeatStep(3, vpParamsTuple(0, 0, 0, 0, 0), 0) }
